@@ -1032,39 +1032,6 @@ def rule_tokbnd(c: Ctx) -> RuleResult:
     rt = c.p.cls("RendererHTML").methods.get("renderToken")
     if rt is not None:
         rr.add(rt)
-    # validate the contract where render rules are dispatched
-    n_disp = 0
-    for g, sites in c.cg.sites.items():
-        for cs in sites:
-            if not (cs.kind == "render-dispatch" or (rt is not None and rt in cs.callees and cs.kind == "method")):
-                continue
-            if len(cs.node.args) < 2:
-                continue
-            n_disp += 1
-            if g in rr and len(g.node.args.args) >= 3:
-                from ..facts import analyse as _an
-                from .prog_rules import contract_call_kills as _cck
-                ez = Facts()
-                ez.add(g.node.args.args[2].arg, f"len({g.node.args.args[1].arg})", -1)
-                cfg = c.cfg(g)
-                res = _an(cfg, ez, _cck(c, g), c.bool_summary)
-            else:
-                cfg, res = bnd_facts(c, g)
-            lst, idx = cs.node.args[0], cs.node.args[1]
-            l = lin(idx)
-            ok = False
-            if l is not None and l[0] is not None:
-                ok = True
-                for n in cfg.owner(cs.node):
-                    z = res.get(n.id)
-                    if z is not None and not z.entails(T(l[0]), f"len({U(lst)})", -1 - l[1]):
-                        ok = False
-            r.add(f"{g.short}|render-dispatch|{alpha(g, cs.node)[:60]}", c.where(g, cs.node), g.short, U(cs.node)[:80],
-                  "discharged" if ok else "violation",
-                  "render-rule contract established: the index passed is below len(tokens) (enumerate / range)" if ok else
-                  "a render rule is called with an index that is not known to be below the length of the token list it is given")
-    if n_disp < 3:
-        raise AnchorError(f"only {n_disp} render-rule dispatch sites found")
     n_sites = 0
     from ..facts import analyse
     from .prog_rules import contract_call_kills
@@ -1117,6 +1084,31 @@ def rule_tokbnd(c: Ctx) -> RuleResult:
             fcache[f] = (cfg_, analyse(cfg_, entry_of(f, depth), contract_call_kills(c, f), c.bool_summary))
         return fcache[f]
 
+    # validate the contract where render rules are dispatched
+    n_disp = 0
+    for g, sites in c.cg.sites.items():
+        for cs in sites:
+            if not (cs.kind == "render-dispatch" or (rt is not None and rt in cs.callees and cs.kind == "method")):
+                continue
+            if len(cs.node.args) < 2:
+                continue
+            n_disp += 1
+            cfg, res = facts_of(g)
+            lst, idx = cs.node.args[0], cs.node.args[1]
+            l = lin(idx)
+            ok = False
+            if l is not None and l[0] is not None:
+                ok = True
+                for n in cfg.owner(cs.node):
+                    z = res.get(n.id)
+                    if z is not None and not z.entails(T(l[0]), f"len({U(lst)})", -1 - l[1]):
+                        ok = False
+            r.add(f"{g.short}|render-dispatch|{alpha(g, cs.node)[:60]}", c.where(g, cs.node), g.short, U(cs.node)[:80],
+                  "discharged" if ok else "violation",
+                  "render-rule contract established: the index passed is below len(tokens) (enumerate / range)" if ok else
+                  "a render rule is called with an index that is not known to be below the length of the token list it is given")
+    if n_disp < 2:
+        raise AnchorError(f"only {n_disp} render-rule dispatch sites found")
     for f in sorted(c.cg.api_phase(), key=lambda x: x.qual):
         sc = c.tf.scope(f)
         subs = [n for n in own_nodes(f.node) if isinstance(n, ast.Subscript) and not isinstance(n.slice, ast.Slice)
